@@ -50,7 +50,7 @@ def main(tier, seed):
 
     def one(k):
         rng = random.Random('%d/%d' % (seed, k))
-        m = gen_nl.G(rng, dict(nobjs=(0, 1), ncons=(1, 3), nlcons=(0, 2), nvars=(2, 4), depth=2, ndv=(0, 1), compl=False, sos=False)).model()
+        m = gen_nl.G(rng, dict(nobjs=(0, 1), ncons=(1, 3), nlcons=(0, 2), nvars=(2, 4), depth=2, ndv=(0, 1), compl=False, sos=True, cone=0.1)).model()
         p0 = gen_nl.make_feasible_at(m, rng) if rng.random() < 0.8 else None
         ops = sorted(gen_nl.model_ops(m))
         info = dict(ops=ops, mode=None, tol=None, judged=0, rep=0, clean=0, failrun=None)
@@ -63,11 +63,13 @@ def main(tier, seed):
             res.append(('%s:%s' % (death[0], death[1]), 'driver died: ' + death[2][-300:]))
         if not tr.finished or res:
             return k, res, info
+        info['cone'] = any('Cone' in c['type'] for c in tr.cons)
         nv = len(m.vars)
         haslogic = bool(m.lcons) or any(o in ops for o in ('if', 'count', 'numberof', 'lt', 'le', 'eq', 'ge', 'gt', 'ne', 'and', 'or', 'not', 'iff', 'implies', 'forall', 'exists', 'alldiff', '!alldiff', 'atleast', 'atmost', 'exactly', '!atleast', '!atmost', '!exactly'))
         # ---- candidate points
         tolcfg = None
-        if rng.random() < 0.3 and 'numberof' not in ops and 'alldiff' not in ops and '!alldiff' not in ops:
+        has_cone = bool(m.cons) and m.cons[-1].get('cone', False)     # a recognised cone is checked as sqrt(sum) - p0*x0: other amounts than the quadratic row
+        if rng.random() < 0.3 and 'numberof' not in ops and 'alldiff' not in ops and '!alldiff' not in ops and not has_cone and not m.suffixes:
             tolcfg = (Fr(1, 4), 0)
         base = gen_nl.grid_points(m, rng, cap=120)
         rng.shuffle(base)
@@ -239,6 +241,7 @@ def main(tier, seed):
         nt = info['judged'] and info['rep'] and info['clean'] and any(op in info['ops'] for op in ('abs', 'min', 'max', 'if', 'count', 'pl', '^2', '*', 'numberof', 'and', 'or', 'not', 'lt', 'le', 'eq', 'ge', 'gt', 'ne', 'iff', 'implies', 'alldiff', 'atleast', 'atmost', 'exactly'))
         ctx.count('%s|%s|%s' % (info['mode'], info['tol'], ','.join(info['ops'])[:70]), nontrivial=bool(nt))
         ctx.bump('points_judged', info['judged'])
+        ctx.bump('models_delivering_a_cone', 1 if info.get('cone') else 0)
         ctx.bump('points_violating', info['rep'])
         ctx.bump('points_satisfying', info['clean'])
         ctx.bump('points_skipped_because_the_delivered_model_excludes_a_feasible_point', info.get('auxbad', 0))
